@@ -392,7 +392,34 @@ func hashBytes(b []byte) uint64 {
 }
 
 // runTraced runs this binary with the given sub-command under strace and returns the events
-func runTraced(sub string, args interface{}, root, ackPath, logPath string, timeout time.Duration) ([]fsEvent, string, error) {
+// straceTrouble: the tracer itself failed (ptrace errors under load), which says nothing about the traced program
+func straceTrouble(msg string) bool {
+	return strings.Contains(msg, "strace: ptrace(") || strings.Contains(msg, "strace: attach") || strings.Contains(msg, "strace: Process") && strings.Contains(msg, "detached")
+}
+
+// runTraced runs a sub-command of this binary under strace. reset (may be nil) restores the directories the
+// sub-command writes to; it is called before every retry after a failure of the tracer itself.
+func runTraced(sub string, args interface{}, root, ackPath, logPath string, timeout time.Duration, reset ...func()) ([]fsEvent, string, error) {
+	var ev []fsEvent
+	var out string
+	var err error
+	for attempt := 0; attempt < 3; attempt++ {
+		if attempt > 0 {
+			for _, r := range reset {
+				r()
+			}
+			os.Remove(logPath)
+			os.Remove(ackPath)
+		}
+		ev, out, err = runTracedOnce(sub, args, root, ackPath, logPath, timeout)
+		if err == nil || !straceTrouble(err.Error()) || len(reset) == 0 {
+			return ev, out, err
+		}
+	}
+	return ev, out, fmt.Errorf("tracer failed repeatedly: %v", err)
+}
+
+func runTracedOnce(sub string, args interface{}, root, ackPath, logPath string, timeout time.Duration) ([]fsEvent, string, error) {
 	self, _ := os.Executable()
 	a, _ := json.Marshal(args)
 	argFile := logPath + ".args.json"
